@@ -33,6 +33,7 @@ type fileSummary struct {
 	returnsRecv bool
 	requires    map[string]ssa.Instruction // facts about parameters needed at entry
 	recv        string
+	single      bool // one result, no error: the facts hold as soon as the call returns
 }
 
 type fileAnalysis struct {
@@ -73,7 +74,11 @@ func (fa *fileAnalysis) aliasesOf(fn *ssa.Function) func(string) string {
 			continue
 		}
 		if s := fa.sums[an.Callee(call)]; s != nil && s.returnsRecv && len(cv.Call.Args) > 0 {
-			as = append(as, al{d.Of(cv) + "#0", d.Of(cv.Call.Args[0])})
+			if s.single {
+				as = append(as, al{d.Of(cv), d.Of(cv.Call.Args[0])})
+			} else {
+				as = append(as, al{d.Of(cv) + "#0", d.Of(cv.Call.Args[0])})
+			}
 		}
 	}
 	sort.Slice(as, func(i, j int) bool { return len(as[i].from) > len(as[j].from) })
@@ -109,7 +114,7 @@ func (fa *fileAnalysis) engine(fn *ssa.Function) *an.Facts {
 					an.KillFact(cur, "nn:"+q)
 					an.KillFact(cur, "ge1:"+q)
 				}
-				if s.void {
+				if s.void || s.single {
 					for _, f := range s.facts {
 						i := strings.Index(f, ":")
 						cur[f[:i+1]+recvD+strings.TrimPrefix(f[i+1:], s.recv)] = true
@@ -245,16 +250,22 @@ func analyseFilePkg(c *core.Ctx) *fileAnalysis {
 			e := fa.engine(fn)
 			e.Run()
 			fa.engines[fn] = e
-			if fn.Signature.Recv() == nil || (fn.Signature.Results().Len() != 2 && fn.Signature.Results().Len() != 0) {
+			nres := fn.Signature.Results().Len()
+			if fn.Signature.Recv() == nil || nres > 2 {
 				continue
 			}
-			void := fn.Signature.Results().Len() == 0
+			// a validator without an error result (`func (s *Stage) withDefaults(d Stage) *Stage`)
+			single := nres == 1 && types.Identical(fn.Signature.Results().At(0).Type(), fn.Signature.Recv().Type())
+			if nres == 1 && !single {
+				continue
+			}
+			void := nres == 0
 			recv := an.ParamDesc(fn.Params[0])
 			var common map[string]bool
 			retRecv := !void
 			n := 0
 			for _, ret := range an.Returns(fn) {
-				if !void && (len(ret.Results) != 2 || !isNilConst(ret.Results[1])) {
+				if !void && !single && (len(ret.Results) != 2 || !isNilConst(ret.Results[1])) {
 					continue
 				}
 				n++
@@ -278,7 +289,7 @@ func analyseFilePkg(c *core.Ctx) *fileAnalysis {
 			if n == 0 {
 				continue
 			}
-			s := &fileSummary{returnsRecv: retRecv, recv: recv, void: void}
+			s := &fileSummary{returnsRecv: retRecv, recv: recv, void: void, single: single}
 			storeSet := map[string]bool{}
 			an.Instrs(fn, func(in ssa.Instruction) {
 				if st, ok := in.(*ssa.Store); ok && an.FieldOfAddr(st.Addr) != nil {
@@ -768,7 +779,12 @@ func c14(c *core.Ctx, r *core.Report) {
 				}
 				n++
 				k, isK := st.Val.(*ssa.Const)
-				r.Check(isK && k.Value != nil && constant.Sign(k.Value) > 0, core.FuncName(fn)+"#schedule-frequency"+itoa(n), an.Pos(c, in), "positive constant frequency", "a progress schedule has frequency "+an.D().Of(st.Val)+": time.NewTicker panics on a non-positive period")
+				okPos := isK && k.Value != nil && constant.Sign(k.Value) > 0
+				if !okPos && !isK {
+					// a configured frequency, used only under a test that it is positive
+					okPos = nonZeroByPositivity(c, in, st.Val, 3)
+				}
+				r.Check(okPos, core.FuncName(fn)+"#schedule-frequency"+itoa(n), an.Pos(c, in), "positive frequency (a constant, or a value tested positive on every path to here)", "a progress schedule has frequency "+an.D().Of(st.Val)+": time.NewTicker panics on a non-positive period")
 			})
 		}
 		r.Floor("schedule frequencies", n, 1)
@@ -1386,6 +1402,12 @@ func nonZeroByPositivity(c *core.Ctx, at ssa.Instruction, v ssa.Value, depth int
 	}
 	if cv, ok := v.(*ssa.Convert); ok {
 		return nonZeroByPositivity(c, at, cv.X, depth)
+	}
+	if ld, ok := v.(*ssa.UnOp); ok && ld.Op == token.MUL {
+		// the load of a captured variable
+		if fv, isFV := ld.X.(*ssa.FreeVar); isFV {
+			v = fv
+		}
 	}
 	if fv, ok := v.(*ssa.FreeVar); ok {
 		if b := an.FreeVarBinding(fv); b != nil {
